@@ -194,6 +194,8 @@ def check_gtf_duplicates(gtf):
     gene_seqids = {}
     # the same for transcript ids
     transcript_seqids = {}
+    # (sequence, transcript id) -> (start, end) of the exon records seen so far
+    transcript_exons = {}
     corrected_gtf = ""
 
     gtf_name = os.path.basename(gtf)
@@ -310,6 +312,27 @@ def check_gtf_duplicates(gtf):
             gtf_correct = False
             transcript_id += ".RNA.IsoQuant_corrected"
 
+        if feature_type == "exon":
+            # the exon records of a transcript share no position: a record listed twice (concatenated annotations) or
+            # overlapping another exon of its transcript would be copied to the output annotations as it is
+            try:
+                exon = (int(v[3]), int(v[4]))
+            except ValueError:
+                exon = None
+            if exon is not None:
+                exons = transcript_exons.setdefault((v[0], transcript_id), [])
+                if exon in exons:
+                    logger.warning("Duplicated exon %d-%d of transcript %s on line %d" %
+                                   (exon[0], exon[1], transcript_id, line_count))
+                    gtf_correct = False
+                    # the corrected annotation keeps the first copy only
+                    continue
+                if any(e[0] <= exon[1] and exon[0] <= e[1] for e in exons):
+                    logger.warning("Exon %d-%d of transcript %s overlaps another exon of this transcript, line %d" %
+                                   (exon[0], exon[1], transcript_id, line_count))
+                    gtf_correct = False
+                exons.append(exon)
+
         new_attrs = []
         for i in range(len(attrs)):
             if i == gene_id_pos + 1:
@@ -340,6 +363,8 @@ def check_gff3_duplicates(handle):
     transcript_count = 0
     line_count = 0
     feature_ids = {}
+    # (sequence, parent id) -> (start, end) of the exon records seen so far
+    transcript_exons = {}
 
     for l in handle.readlines():
         line_count += 1
@@ -356,6 +381,24 @@ def check_gff3_duplicates(handle):
             transcript_count += 1
 
         attrs = v[8].split(";")
+        if feature_type == "exon":
+            # as for a GTF file: the exon records of a transcript share no position (one line may name several parents)
+            try:
+                exon = (int(v[3]), int(v[4]))
+            except ValueError:
+                exon = None
+            parents = [a.split("=", 1)[1] for a in attrs if a.startswith("Parent=")]
+            for parent in (parents[0].split(",") if exon is not None and parents else []):
+                exons = transcript_exons.setdefault((v[0], parent), [])
+                if exon in exons:
+                    logger.warning("Duplicated exon %d-%d of transcript %s on line %d" % (exon[0], exon[1], parent, line_count))
+                    gtf_correct = False
+                    continue
+                if any(e[0] <= exon[1] and exon[0] <= e[1] for e in exons):
+                    logger.warning("Exon %d-%d of transcript %s overlaps another exon of this transcript, line %d" %
+                                   (exon[0], exon[1], parent, line_count))
+                    gtf_correct = False
+                exons.append(exon)
         id_pos = -1
         for i in range(len(attrs)):
             if attrs[i].startswith('ID'):
